@@ -144,13 +144,23 @@ func genView(rt *rapid.T, o viewOpts) *gossipbackend.ViewCase {
 		}
 		vc.Trunk = append(vc.Trunk, p)
 	}
-	nb := rapid.IntRange(1, 3).Draw(rt, "branches")
+	nb := rapid.IntRange(1, 4).Draw(rt, "branches")
 	if o.tour >= 0 {
-		nb = 2 + o.tour%2
+		nb = 3 + o.tour%2
 	}
 	for b := 0; b < nb; b++ {
 		var fs int
 		switch b {
+		case 2:
+			// a child of the block that will be finalized, placed at or before the start slot of the finalized epoch:
+			// when that start slot is empty on the trunk this block conflicts with the finalized checkpoint
+			// although it descends from the finalized block
+			fs = 4*(epochs-2) - 1
+			if fs < 1 || fs >= h {
+				fs = rapid.IntRange(0, h-1).Draw(rt, "fork_slot")
+			}
+			vc.Branches = append(vc.Branches, gossipbackend.BranchCase{ForkSlot: uint64(fs), Slots: []gossipbackend.SlotPlan{{Seed: rapid.Uint64().Draw(rt, "seed")}}})
+			continue
 		case 0: // forked early: stale once the trunk finalizes
 			fs = rapid.IntRange(1, minI(9, h-1)).Draw(rt, "fork_slot_stale")
 		case 1: // forked near the head: stays in the finalized subtree
